@@ -74,8 +74,12 @@ def new_result():
 def guarded(fn, scn, budget_s=60):
     """Run fn(scn) under a SIGALRM budget. Any exception that escapes the
     worker is itself reported (never silently dropped)."""
+    # the budget is CPU time of this worker (load on the machine must not turn a slow case into a "hang");
+    # a wall-clock backstop of ten times the budget catches a call that waits without computing
     old = signal.signal(signal.SIGALRM, _alarm)
-    signal.setitimer(signal.ITIMER_REAL, budget_s)
+    oldp = signal.signal(signal.SIGPROF, _alarm)
+    signal.setitimer(signal.ITIMER_PROF, budget_s)
+    signal.setitimer(signal.ITIMER_REAL, max(10.0 * budget_s, 600.0))
     try:
         return fn(scn)
     except Hang as e:
@@ -87,6 +91,7 @@ def guarded(fn, scn, budget_s=60):
         return r
     except BaseException as e:  # harness-level failure: SystemExit included
         signal.setitimer(signal.ITIMER_REAL, 0)
+        signal.setitimer(signal.ITIMER_PROF, 0)
         r = new_result()
         r['outcome'] = 'EXC:' + site_of(e)
         r['violations'].append(violation(
@@ -95,7 +100,9 @@ def guarded(fn, scn, budget_s=60):
         return r
     finally:
         signal.setitimer(signal.ITIMER_REAL, 0)
+        signal.setitimer(signal.ITIMER_PROF, 0)
         signal.signal(signal.SIGALRM, old)
+        signal.signal(signal.SIGPROF, oldp)
 
 
 _WORKER_FN = None
